@@ -367,6 +367,24 @@ func (g *G) genCase(stream, id string) Case {
 		default:
 			op = Op{Name: "applyparas", I: []int{g.r.Intn(6)}, Opts: o}
 		}
+		if g.chance(0.3) {
+			// the same paragraph operation on a sub-editor (selected lines or characters), then committed
+			c := Case{ID: id, Stream: stream, Pool: []string{t}}
+			recv := 0
+			if o != nil {
+				c.Steps = append(c.Steps, Op{Recv: 0, Name: "withopts", Opts: o})
+				recv = 1
+			}
+			if g.chance(0.5) {
+				c.Steps = append(c.Steps, Op{Recv: recv, Name: "lines", I: []int{g.r.Intn(3), rosed.End - g.r.Intn(2)*rosed.End + g.r.Intn(2)*(-1)}})
+			} else {
+				c.Steps = append(c.Steps, Op{Recv: recv, Name: "chars", I: []int{g.r.Intn(4), -g.r.Intn(4)}})
+			}
+			op.Recv = recv + 1
+			c.Steps = append(c.Steps, op)
+			c.Steps = append(c.Steps, Op{Recv: recv + 2, Name: "commit"})
+			return c
+		}
 		return g.viaEditor(one(stream, id, t, op))
 	case "wrap": // C06
 		o := g.opts(cleanPairs, false)
